@@ -190,27 +190,36 @@ def union_rule(prog, rep):
     ev = norm(lp.target)
     ifs = [x for x in lp.body if isinstance(x, ast.If)]
     tt = ifs[0].test
-    okt = isinstance(tt, ast.UnaryOp) and isinstance(tt.op, ast.Not) and isinstance(tt.operand, ast.Call) and isinstance(tt.operand.func, ast.Attribute) and tt.operand.func.attr == "gap"
-    from ..sqlmodel import single_def
+    from ..trace import deep
 
+    neg = isinstance(tt, ast.UnaryOp) and isinstance(tt.op, ast.Not)
+    core = tt.operand if neg else tt
+    okt = isinstance(core, ast.Call) and isinstance(core.func, ast.Attribute) and core.func.attr == "gap" and len(core.args) == 1
+    last = None
+    for n in lp.body:
+        if isinstance(n, ast.Assign) and norm(n.value).endswith("[-1]"):
+            last = norm(n.targets[0])
+    periods = set()
     if okt:
-        a, b = norm(tt.operand.func.value), norm(tt.operand.args[0])
-        da, db = single_def(fi, a), single_def(fi, b)
-        last = None
-        for n in lp.body:
-            if isinstance(n, ast.Assign) and norm(n.value).endswith("[-1]"):
-                last = norm(n.targets[0])
-        okt = da is not None and db is not None and last is not None and {norm(da), norm(db)} == {f"_get_event_period({ev})", f"_get_event_period({last})"}
-    rep.check(okt, "UNION", fi.short, "merge test", "not period(e).gap(period(last))", f"the merge test is `{norm(tt)}`, not 'no gap between the event and the last output'", fi.loc(ifs[0]))
+        periods = {norm(deep(core.func.value, fi, stop=(last,) if last else ())), norm(deep(core.args[0], fi, stop=(last,) if last else ()))}
+        okt = last is not None and periods == {f"_get_event_period({ev})", f"_get_event_period({last})"}
+    rep.check(okt, "UNION", fi.short, "merge test", "[not] period(e).gap(period(last))", f"the merge test is `{norm(tt)}`, not 'no gap between the event and the last output'", fi.loc(ifs[0]))
     if okt:
-        yes = [norm(s) for s in ifs[0].body]
-        no = [norm(s) for s in ifs[0].orelse]
+        merge_b, other_b = (ifs[0].body, ifs[0].orelse) if neg else (ifs[0].orelse, ifs[0].body)
         acc = None
-        for s in ifs[0].orelse:
-            if isinstance(s, ast.Expr) and isinstance(s.value, ast.Call) and isinstance(s.value.func, ast.Attribute) and s.value.func.attr == "append":
-                acc = norm(s.value.func.value)
-        oky = acc is not None and no == [f"{acc}.append({ev})"] and len(yes) == 2 and yes[0].endswith(f".union({b})") or (acc is not None and no == [f"{acc}.append({ev})"] and len(yes) == 2 and ".union(" in yes[0])
-        oky = oky and acc is not None and yes[-1].startswith(f"{acc}[-1] = _replace_event_period({last}, ")
+        for s_ in other_b:
+            if isinstance(s_, ast.Expr) and isinstance(s_.value, ast.Call) and isinstance(s_.value.func, ast.Attribute) and s_.value.func.attr == "append":
+                acc = norm(s_.value.func.value)
+        yes = [norm(x) for x in merge_b]
+        no = [norm(x) for x in other_b]
+        oky = acc is not None and no == [f"{acc}.append({ev})"]
+        repl = [x for x in merge_b if isinstance(x, ast.Assign) and norm(x.targets[0]) == f"{acc}[-1]"]
+        others = [x for x in merge_b if x not in repl and not (isinstance(x, ast.Assign) and isinstance(x.targets[0], ast.Name))]
+        if oky:
+            oky = len(repl) == 1 and not others and isinstance(repl[0].value, ast.Call) and norm(repl[0].value.func) == "_replace_event_period" and len(repl[0].value.args) == 2 and norm(repl[0].value.args[0]) == last
+        if oky:
+            u = deep(repl[0].value.args[1], fi, stop=(last,))
+            oky = isinstance(u, ast.Call) and isinstance(u.func, ast.Attribute) and u.func.attr == "union" and len(u.args) == 1 and {norm(u.func.value), norm(u.args[0])} == periods
         rep.check(bool(oky), "UNION", fi.short, "branches", "merge: last := union period; else: append", f"branches are merge={yes} / else={no}", fi.loc(ifs[0]))
         # outputs cleared
         clear = [l for l in loops if l is not lp and norm(l.iter) == acc and [norm(s) for s in l.body if not (isinstance(s, ast.Expr) and isinstance(s.value, ast.Constant))] == [f"{norm(l.target)}.data = {{}}"]]
